@@ -37,7 +37,7 @@ LEVEL_TEXT = ("Seeded fault search over the plaintext part of every flight "
               "seed - determinism makes 'same honest choices' exact.")
 LEVEL_NOTE = ("Trusted: simulator, MITM; the attacker re-encodes hellos with "
               "tlslite's own ClientHello/ServerHello classes.")
-BUDGET = {"quick": 60, "thorough": 1200}
+BUDGET = {"quick": 300, "thorough": 1200}
 CHUNK = 8
 ATTACKS = ["bitflip", "drop", "dup", "swap", "strip13", "lower_version",
            "restrict_suites", "reorder_suites", "strip_ext", "session_id",
